@@ -361,6 +361,11 @@ class Router:
         # Calculate the differences in latitude and longitude
         dlat = lat2 - lat1
         dlon = lon2 - lon1
+        # Take the short way round across the +-180 degree meridian
+        if dlon > math.pi:
+            dlon -= 2 * math.pi
+        elif dlon < -math.pi:
+            dlon += 2 * math.pi
 
         # Calculate the distance along the y-axis (-longitude)
         y_distance = EARTH_RADIUS * dlon * math.cos((lat1 + lat2) / 2)
